@@ -216,6 +216,10 @@ def _import_plain(ctx, spec, d, pt, compressed, net, case):
         kw['network'] = net
     if 'compressed' in hints:
         kw['compressed'] = compressed
+    if 'compressed_other' in hints and fmt == 'wif' and via != 'from_wif':
+        # a WIF states its own compression flag: the argument (whose default, True, already loses against an
+        # uncompressed WIF) does not override it in either direction
+        kw['compressed'] = not compressed
     if 'is_private' in hints:
         kw['is_private'] = private
     what = '%s(%s=%s%s)' % (via, fmt, _short(rep), ''.join(', %s=%r' % kv for kv in sorted(kw.items())))
@@ -691,7 +695,7 @@ def key_strategy(ctx):
                             'hints': draw(_hint_strategy(['network', 'compressed', 'is_private']))})
         if draw(st.booleans()):
             imports.append({'fmt': 'wif', 'via': draw(st.sampled_from(['Key', 'HDKey', 'from_wif'])),
-                            'hints': draw(_hint_strategy(['network']))})
+                            'hints': draw(_hint_strategy(['network', 'compressed_other']))})
         return {'kind': 'key', 'secret': '%064x' % draw(_secret_strategy()),
                 'compressed': draw(st.sampled_from([True, False, False])),
                 'network': draw(gen.networks()), 'imports': imports}
@@ -833,6 +837,8 @@ def _matrix_cases():
                 for via in ('Key', 'HDKey', 'from_wif'):
                     for hints in ([], ['network']):
                         imports.append({'fmt': 'wif', 'via': via, 'hints': hints})
+                    if via != 'from_wif':
+                        imports.append({'fmt': 'wif', 'via': via, 'hints': ['compressed_other', 'network']})
                 for fmt in PRIVATE_FORMATS[:-1] + PUBLIC_FORMATS:
                     imports.append({'fmt': fmt, 'via': 'Key', 'hints': ['network']})
                 out.append({'kind': 'key', 'secret': sec, 'compressed': compressed, 'network': net, 'imports': imports})
